@@ -672,6 +672,9 @@ func rejectedConstructFamilies() []OutsideAtom {
 		add("opx_"+op.id+"_map", "m[1] "+op.op+" "+rhs, false)
 		add("opx_"+op.id+"_deref", "*q "+op.op+" "+rhs, false)
 		add("opx_"+op.id+"_elem_effect_index", "s[bump(q)%3] "+op.op+" "+rhs, false)
+		add("opx_"+op.id+"_deref_var_pointer", "var pq *uint64 = q\n\t*pq "+op.op+" "+rhs+"\n\tx += *pq", false)
+		add("opx_"+op.id+"_field_var_pointer", "var pp *H = p\n\tpp.f "+op.op+" "+rhs+"\n\tx += pp.f", false)
+		add("opx_"+op.id+"_elem_var_slice", "var ss []uint64 = s\n\tss[2] "+op.op+" "+rhs+"\n\tx += ss[2]", false)
 	}
 	// --- inc/dec on every l-value kind
 	for _, op := range []string{"++", "--"} {
@@ -686,6 +689,13 @@ func rejectedConstructFamilies() []OutsideAtom {
 		add("incx_"+id+"_deref", "(*q)"+op, false)
 		// ++/-- on a uint32 / byte VARIABLE is the recorded C01 finding incdec-on-narrow-integer (the gold
 		// files pin `+ #1`): not repeated here
+		// the same targets reached through VAR-declared (pointer-wrapped) variables
+		add("incx_"+id+"_deref_var_pointer", "var pq *uint64 = q\n\t(*pq)"+op+"\n\tx += *pq", false)
+		add("incx_"+id+"_deref_var_pointer_noparen", "var pq *uint64 = q\n\t*pq"+op+"\n\tx += *pq", false)
+		add("incx_"+id+"_field_var_pointer", "var pp *H = p\n\tpp.f"+op+"\n\tx += pp.f", false)
+		add("incx_"+id+"_elem_var_slice", "var ss []uint64 = s\n\tss[2]"+op+"\n\tx += ss[2]", false)
+		add("incx_"+id+"_map_var_map", "var mm map[uint64]uint64 = m\n\tmm[1]"+op+"\n\tx += mm[1]", false)
+		add("incx_"+id+"_field_var_struct", "var hv H\n\thv.f = x\n\thv.f"+op+"\n\tx += hv.f", false)
 		add("incx_"+id+"_param", "a"+op+"\n\tx += a", false)
 		add("incx_"+id+"_define_bound", "y2 := y\n\ty2"+op+"\n\tx += y2", false)
 	}
@@ -748,6 +758,16 @@ func rejectedConstructFamilies() []OutsideAtom {
 	add("array_take", "var a1 [4]uint64\n\ta1[0] = x\n\tt9 := a1[:2]\n\tx += t9[0] + uint64(len(t9))", false)
 	add("array_pointer_take", "pa1 := new([4]uint64)\n\tpa1[0] = x\n\tt9 := pa1[:2]\n\tx += t9[0] + uint64(len(t9))", false)
 	add("named_slice_take", "nb := make(Bytes, 3)\n\tt9 := nb[:2]\n\tx += uint64(len(t9)) + uint64(cap(t9))", false)
+	// --- parenthesised assignment targets (legal Go; the statement must not vanish)
+	add("paren_lhs_var", "(x) = x + 5", false)
+	add("paren_lhs_var_twice", "((x)) = x + 5", false)
+	add("paren_lhs_field", "(p.f) = p.f + 7", false)
+	add("paren_lhs_elem", "(s[1]) = 9", false)
+	add("paren_lhs_deref", "(*q) = *q + 3", false)
+	add("paren_lhs_map", "(m[1]) = 4", false)
+	add("paren_lhs_opassign", "(x) += 2", false)
+	add("paren_lhs_inner_paren", "(*(q)) = 6\n\t(p).f = 8", false)
+	add("paren_lhs_multi", "var x2 uint64\n\t(x2), (s[2]) = two(x)\n\tx += x2", false)
 	// --- stores into struct VALUES that are not heap cells
 	add("fieldassign_define_bound", "c9 := H{f: x}\n\tc9.f = 1000\n\tx += c9.f", false)
 	add("fieldassign_define_bound_opassign", "c9 := H{f: x}\n\tc9.f += 5\n\tx += c9.f", false)
